@@ -369,7 +369,8 @@ func runScript(t *testing.T, run *vt.Run, c vt.CaseID, rng *rand.Rand, exhaustiv
 							case *ring.Desc:
 								d.Ingesters[name] = ring.InstanceDesc{Id: name, Addr: name, Zone: "z", State: ring.ACTIVE, Timestamp: now.Unix(), Tokens: []uint32{uint32(1000 + s.seq)}, RegisteredTimestamp: now.Unix()}
 							case *ring.PartitionRingDesc:
-								d.AddPartition(int32(1000+s.seq), ring.PartitionActive, now)
+								// (explicit token: AddPartition would run the spread-minimising generator for index 1000+)
+								d.Partitions[int32(1000+s.seq)] = ring.PartitionDesc{Id: int32(1000 + s.seq), Tokens: []uint32{uint32(100000 + s.seq)}, State: ring.PartitionActive, StateTimestamp: now.Unix()}
 								d.AddOrUpdateOwner(name, ring.OwnerActive, int32(1000+s.seq), now)
 							}
 						}
